@@ -288,18 +288,25 @@ func (wd *World) openHeld() error {
 	if err := w.WM.Start(); err != nil {
 		return err
 	}
+	wd.state = "starting:worker-frozen-before-its-first-read"
 	select {
 	case <-r.hit:
-	case <-time.After(10 * time.Second):
-		return fmt.Errorf("world: the worker goroutine never started")
+	case <-time.After(300 * time.Millisecond):
+		// the worker does not begin with a database read (any more): requests are issued right after Start returns
+		wd.g.openRule(r)
+		wd.state = "starting:right-after-Start"
 	}
 	a, err := api.NewAPIServer(w.WM.VerifServer(), w.WM, func() {}, w.Cfg)
 	if err != nil {
 		return err
 	}
 	wd.api = a
-	wd.state = "starting"
 	return nil
+}
+
+func (wd *World) ksmgr() *keystore.KeystoreManager {
+	_, _, _, k, _ := wd.w.WM.VerifStores()
+	return k
 }
 
 // restart stops the manager and opens it again on the same directory (no wallet selected afterwards).
